@@ -487,7 +487,7 @@ func runC16(c *Ctx) {
 	c.Check("C16-R3", f.Key()+" partial = Σ gpuAllocations, total = partial + overflow", c.Pos(f.Decl), okSum && okTot, "the total requirement must be at least the GPU-resident part")
 
 	// ------------------------------------------------------------------ R4
-	c.Rule("C16-R4", "fits: PredictServerFit returns true only on the true edge of layerCount > 0 and a comparison of estimate.Layers with BlockCount()+1 (or with NumGPU when the user set one)")
+	c.Rule("C16-R4", "fits: PredictServerFit returns true — or sets the boolean it returns true on — only behind layerCount > 0 and a comparison of estimate.Layers with BlockCount()+1 (or with NumGPU when the user set one)")
 	if pf := c.Fn("C16-R4", "llm", "PredictServerFit"); pf != nil {
 		pg := c.G(pf)
 		// the local that holds this iteration's estimate.Layers
@@ -501,16 +501,59 @@ func runC16(c *Ctx) {
 			return true
 		})
 		n := 0
+		pinfo := pf.Info()
+		// the layer count: the local read from estimate.Layers, or that field itself
+		isLayerCount := func(e ast.Expr) bool {
+			if lcObj != nil && isIdentOf(pinfo, e, lcObj) {
+				return true
+			}
+			se, isSel := ast.Unparen(e).(*ast.SelectorExpr)
+			return isSel && se.Sel.Name == "Layers" && core.ObjNameOfType(pinfo.TypeOf(se.X)) == "llm.MemoryEstimate"
+		}
+		// the places where "it fits" is decided: a `return true`, or — when that return is taken on a boolean
+		// local — each assignment of a non-constant value to the local (its tests plus the value assigned)
+		type site struct {
+			pos   ast.Node
+			atoms []core.Atom
+		}
+		var sites []site
 		for _, ex := range pg.Returns() {
 			if core.ExprString(ex.Return.Results[0]) != "true" {
 				continue
 			}
+			atoms := pg.AtomsAt(ex.Loc)
+			var flag types.Object
+			for _, a := range atoms {
+				if id, isID := ast.Unparen(a.Expr).(*ast.Ident); isID && a.Val {
+					if v, isV := pinfo.ObjectOf(id).(*types.Var); isV && !v.IsField() && types.Identical(v.Type().Underlying(), types.Typ[types.Bool]) {
+						flag = v
+					}
+				}
+			}
+			if flag == nil {
+				sites = append(sites, site{ex.Return, atoms})
+				continue
+			}
+			for _, as := range pg.AssignsTo(flag) {
+				a, isAs := as.Node.(*ast.AssignStmt)
+				if !isAs || len(a.Lhs) != 1 || len(a.Rhs) != 1 {
+					continue // declaration: false
+				}
+				if id, isID := ast.Unparen(a.Rhs[0]).(*ast.Ident); isID && id.Name == "false" {
+					continue
+				}
+				at := append([]core.Atom{}, pg.AtomsAt(as.Loc)...)
+				at = append(at, core.Atoms([]core.Fact{{Expr: a.Rhs[0], Val: true}})...)
+				sites = append(sites, site{a, at})
+			}
+		}
+		for _, st := range sites {
 			n++
 			pos, cmp := false, false
 			numGPUNeg := func(want bool) bool {
-				for _, a2 := range pg.AtomsAt(ex.Loc) {
+				for _, a2 := range st.atoms {
 					if be2, ok := ast.Unparen(a2.Expr).(*ast.BinaryExpr); ok && selName(be2.X) == "NumGPU" {
-						if v, isC := core.ConstInt(pf.Info(), be2.Y); isC && v == 0 {
+						if v, isC := core.ConstInt(pinfo, be2.Y); isC && v == 0 {
 							// NumGPU < 0 true  ≡  NumGPU >= 0 false
 							if (be2.Op == token.LSS && a2.Val == want) || (be2.Op == token.GEQ && a2.Val != want) {
 								return true
@@ -520,16 +563,15 @@ func runC16(c *Ctx) {
 				}
 				return false
 			}
-			for _, at := range pg.AtomsAt(ex.Loc) {
+			for _, at := range st.atoms {
 				be, ok := ast.Unparen(at.Expr).(*ast.BinaryExpr)
 				if !ok {
 					continue
 				}
-				x, y, op, okO := core.Orient(be, func(e ast.Expr) bool { return lcObj != nil && isIdentOf(pf.Info(), e, lcObj) })
+				_, y, op, okO := core.Orient(be, isLayerCount)
 				if !okO {
 					continue
 				}
-				_ = x
 				// normalise to the true form
 				if !at.Val {
 					switch op {
@@ -541,11 +583,11 @@ func runC16(c *Ctx) {
 						continue
 					}
 				}
-				if v, isC := core.ConstInt(pf.Info(), y); isC && op == token.GTR && v == 0 {
+				if v, isC := core.ConstInt(pinfo, y); isC && ((op == token.GTR && v == 0) || (op == token.GEQ && v == 1)) {
 					pos = true
 				}
 				if op == token.GEQ {
-					if len(core.CallsTo(pf.Info(), y, false, "fs/ggml.KV.BlockCount")) == 1 {
+					if len(core.CallsTo(pinfo, y, false, "fs/ggml.KV.BlockCount")) == 1 {
 						// BlockCount()+1 under any conversions
 						yy := ast.Unparen(y)
 						for {
@@ -553,16 +595,16 @@ func runC16(c *Ctx) {
 							if !isCall || len(call.Args) != 1 {
 								break
 							}
-							if tv, isT := pf.Info().Types[call.Fun]; !isT || !tv.IsType() {
+							if tv, isT := pinfo.Types[call.Fun]; !isT || !tv.IsType() {
 								break
 							}
 							yy = ast.Unparen(call.Args[0])
 						}
 						if add, isB := yy.(*ast.BinaryExpr); isB && add.Op == token.ADD {
-							if v, isC := core.ConstInt(pf.Info(), add.Y); isC && v == 1 && numGPUNeg(true) {
+							if v, isC := core.ConstInt(pinfo, add.Y); isC && v == 1 && numGPUNeg(true) {
 								cmp = true
 							}
-							if v, isC := core.ConstInt(pf.Info(), add.X); isC && v == 1 && numGPUNeg(true) {
+							if v, isC := core.ConstInt(pinfo, add.X); isC && v == 1 && numGPUNeg(true) {
 								cmp = true
 							}
 						}
@@ -572,11 +614,20 @@ func runC16(c *Ctx) {
 					}
 				}
 			}
-			c.Check("C16-R4", pf.Key()+" true#"+itoa(n)+" only when all requested layers were placed", c.Pos(ex.Return), pos && cmp, "a full fit may be declared only behind layerCount > 0 ∧ layerCount >= BlockCount()+1 (or >= NumGPU)")
+			c.Check("C16-R4", pf.Key()+" true#"+itoa(n)+" only when all requested layers were placed", c.Pos(st.pos), pos && cmp, "a full fit may be declared only behind layerCount > 0 ∧ layerCount >= BlockCount()+1 (or >= NumGPU)")
 		}
 		c.Expect("C16-R4", "true returns of PredictServerFit", n, 2)
 		// layerCount is estimate.Layers of this iteration's estimate
 		ok := lcObj != nil
+		if !ok {
+			// no local: the comparisons read estimate.Layers directly (isLayerCount accepted them above)
+			ast.Inspect(pf.Body, func(x ast.Node) bool {
+				if be, isB := x.(*ast.BinaryExpr); isB && (isLayerCount(be.X) || isLayerCount(be.Y)) {
+					ok = true
+				}
+				return true
+			})
+		}
 		c.Check("C16-R4", pf.Key()+" compares the estimate's layer count", c.Pos(pf.Decl), ok, "layerCount must be estimate.Layers")
 	}
 }
